@@ -7,6 +7,8 @@ package decoder
 
 import (
 	"github.com/hashicorp/hcl-lang/decoder/internal/schemahelper"
+	"github.com/hashicorp/hcl-lang/lang"
+	"github.com/hashicorp/hcl-lang/reference"
 	"github.com/hashicorp/hcl-lang/schema"
 	"github.com/hashicorp/hcl/v2"
 )
@@ -26,4 +28,14 @@ func VerifDependentBodySchema(block *hcl.Block, blockSchema *schema.BlockSchema)
 // VerifSetMaxCandidates lowers the candidate limit so that the limit logic can be exercised with small schemas.
 func VerifSetMaxCandidates(d *PathDecoder, n uint) {
 	d.maxCandidates = n
+}
+
+// VerifResolveBlockAddress exposes resolveBlockAddress.
+func VerifResolveBlockAddress(block *hcl.Block, blockSchema *schema.BlockSchema) (lang.Address, bool) {
+	return resolveBlockAddress(block, blockSchema)
+}
+
+// VerifAppendOrigins exposes appendOrigins (de-duplication of origins across one-of alternatives).
+func VerifAppendOrigins(origins, newOrigins reference.Origins) reference.Origins {
+	return appendOrigins(origins, newOrigins)
 }
